@@ -669,6 +669,9 @@ func runTermination(p *Program, sp *Spec, c *Collector) {
 			sccProps = append(sccProps, sp.Tables.FuncProps[p.FuncKey(f)]...)
 		}
 		sccProps = dedupStrings(sccProps)
+		if len(sccProps) == 0 {
+			continue // no property depends on this cycle (over-approximated call edges produce spurious ones)
+		}
 		// 1. budget counter
 		if ok, why := budgetCounter(p, a, comp, inComp); ok {
 			c.Ob(sccProps, "E6.termination", key, Discharged, "budget counter: "+why, p.FuncPos(comp[0]), true)
@@ -759,6 +762,9 @@ func runTermination(p *Program, sp *Spec, c *Collector) {
 			lp := append([]string{}, props...)
 			lp = append(lp, sp.Tables.FuncProps[p.FuncKey(fn)]...)
 			lp = dedupStrings(lp)
+			if len(lp) == 0 {
+				continue
+			}
 			pos := ""
 			if len(h.Instrs) > 0 {
 				pos = p.InstrPos(h.Instrs[len(h.Instrs)-1])
